@@ -1,6 +1,8 @@
 (* Tree/Compat.v — model of Element::check_version_compatibility / recalc_element_type (element.rs),
    ArxmlFile::check_version_compatibility and ArxmlFile::set_version (arxmlfile.rs), statement by statement.
    The interface (`compat_err`, `f_check_version_compatibility`, `f_set_version`) is fixed: Tree/Script2.v and the drivers use it.
+   The walk only READS the state and has no `?`: it is written as a pure function of the world into `res`
+   (Pan = an `unwrap`/index of the Rust panics) and lifted into the state monad at the two entry points.
    MODEL ONLY: definitions, no proofs (proofs: Tree/CompatProofs*.v, theorems: Properties/C17.v). *)
 From AV Require Import Base.Bytes Base.Outcome Hash.HashModel Tree.Heap Tree.Ops.
 Open Scope string_scope.
@@ -19,6 +21,11 @@ Definition U32MAX : N := 4294967295.
 (* AutosarVersion::compatible(self, version_mask) = version_mask & self as u32 != 0 *)
 Definition compatible (target mask : N) : bool := negb (N.land mask target =? 0).
 
+(* self.0.read() of an element the harness still holds *)
+Definition node_at (w : world) (i : id) : res node := unwrap "dangling node id" (w_nodes w i).
+
+Definition cres := (list compat_err * N)%type.      (* (compat_errors, overall_version_mask) *)
+
 Section Compat.
 Variable T : tables.
 
@@ -27,84 +34,114 @@ Variable T : tables.
          if let Some((etype, ..)) = parent.element_type().find_sub_element(self.element_name(), target_version as u32) { return etype; } }
      self.element_type()
    The parent's STORED type is used (not the parent's own recalculated type). *)
-Definition recalc_element_type (n : node) (target : N) : W (N * N) :=
+Definition recalc_element_type (w : world) (n : node) (target : N) : res (N * N) :=
   match n_parent n with
   | PElem p =>
-    (do pn <- get_node p;
-     do r <- wlift (find_sub_element T (n_type pn) (n_name n) target);
-     wret (match r with Some (et, _) => et | None => n_type n end))%W
-  | PModel _ => wret (n_type n)          (* Ok(None) *)
-  | PNone => wret (n_type n)             (* Err(ItemDeleted) *)
+    (let* pn := node_at w p in
+     let* r := find_sub_element T (n_type pn) (n_name n) target in
+     Val (match r with Some (et, _) => et | None => n_type n end))%res
+  | PModel _ => Val (n_type n)          (* Ok(None) *)
+  | PNone => Val (n_type n)             (* Err(ItemDeleted) *)
   end.
 
-(* the attribute loop: `for attribute in &element.attributes { if let Some(AttributeSpec{spec, version, ..}) =
-   elemtype_new.find_attribute_spec(attribute.attrname) { ... } }`  — an attribute unknown to the new type is skipped *)
-Fixpoint attr_loop (self : id) (newty : N * N) (target : N) (attrs : list (N * cdata)) (errs : list compat_err) (mask : N)
-  : res (list compat_err * N) :=
+(* one attribute of the loop `for attribute in &element.attributes` : its errors and what is AND-ed into the mask *)
+Definition attr_step (self : id) (oldty newty : N * N) (target : N) (a : N * cdata) : res cres :=
+  let '(an, v) := a in
+  (let* sp := find_attribute_spec T newty an in
+   match sp with
+   | Some (_, spec, _, vmask) =>
+     (* overall_version_mask &= version_mask *)
+     if negb (compatible target vmask)
+     then Val ([CEAttr self an vmask], vmask)
+     else
+       let '(ok, vm) := value_compat v spec target in
+       (* overall_version_mask &= value_version_mask *)
+       Val (if ok then [] else [CEAttrValue self an vm], N.land vmask vm)
+   | None =>
+     (* the element type used in the target version does not have this attribute:
+        element.elemtype.find_attribute_spec(attrname).map_or(0, |spec| spec.version) & !(target_version as u32) *)
+     let* so := find_attribute_spec T oldty an in
+     let m := N.ldiff (match so with Some (_, _, _, ver) => ver | None => 0 end) target in
+     Val ([CEAttr self an m], m)
+   end)%res.
+
+Fixpoint attr_loop (self : id) (oldty newty : N * N) (target : N) (attrs : list (N * cdata)) : res cres :=
   match attrs with
-  | [] => Val (errs, mask)
-  | (an, v) :: rest =>
-    (let* sp := find_attribute_spec T newty an in
-     match sp with
-     | Some (_, spec, _, vmask) =>
-       let mask1 := N.land mask vmask in                                  (* overall_version_mask &= version_mask *)
-       if negb (compatible target vmask)
-       then attr_loop self newty target rest (errs ++ [CEAttr self an vmask]) mask1
-       else
-         let '(ok, vm) := value_compat v spec target in
-         let errs' := if ok then errs else errs ++ [CEAttrValue self an vm] in
-         attr_loop self newty target rest errs' (N.land mask1 vm)         (* overall_version_mask &= value_version_mask *)
-     | None => attr_loop self newty target rest errs mask
-     end)%res
+  | [] => Val ([], U32MAX)
+  | a :: rest =>
+    (let* '(e1, m1) := attr_step self oldty newty target a in
+     let* '(e2, m2) := attr_loop self oldty newty target rest in
+     Val (e1 ++ e2, N.land m1 m2))%res
+  end.
+
+(* the character data of the element itself:
+   if let Some(value_spec) = elemtype_new.chardata_spec() { for content_item in &element.content {
+       if let ElementContent::CharacterData(chardata) = content_item { ... IncompatibleElement { element: self.clone(), .. } } } } *)
+Fixpoint text_loop (self : id) (spec : cdspec) (target : N) (items : list citem) : cres :=
+  match items with
+  | [] => ([], U32MAX)
+  | CElem _ :: rest => text_loop self spec target rest
+  | CData d :: rest =>
+    let '(ok, vm) := value_compat d spec target in
+    let '(e2, m2) := text_loop self spec target rest in
+    ((if ok then [] else [CEElem self vm]) ++ e2, N.land vm m2)
+  end.
+
+(* `for sub_element in self.sub_elements()`; `rec` is the recursive call on a sub element *)
+Fixpoint sub_loop (rec : id -> res cres) (w : world) (oldty newty : N * N) (f target : N) (items : list citem) : res cres :=
+  match items with
+  | [] => Val ([], U32MAX)
+  | CData _ :: rest => sub_loop rec w oldty newty f target rest
+  | CElem c :: rest =>
+    (let* cn := node_at w c in
+     (* file_membership.is_empty() || file_membership.contains(file) *)
+     if is_empty (n_files cn) || set_mem f (n_files cn) then
+       (* a.or(b): BOTH lookups are evaluated (the argument of `or` is eager) *)
+       let* r1 := find_sub_element T newty (n_name cn) target in
+       let* r2 := find_sub_element T newty (n_name cn) U32MAX in
+       match (match r1 with Some x => Some x | None => r2 end) with
+       | Some (_, indices) =>
+         (* self.element_type().get_sub_element_version_mask(&indices).unwrap() — the OLD type with the NEW type's indices *)
+         let* o := get_sub_element_version_mask T oldty indices in
+         let* vm := unwrap "check_version_compatibility: get_sub_element_version_mask(..).unwrap()" o in
+         if negb (compatible target vm)
+         then
+           let* '(e2, m2) := sub_loop rec w oldty newty f target rest in
+           Val (CEElem c vm :: e2, N.land vm m2)
+         else
+           let* '(e1, m1) := rec c in
+           let* '(e2, m2) := sub_loop rec w oldty newty f target rest in
+           Val (e1 ++ e2, N.land (N.land vm m1) m2)
+       | None => sub_loop rec w oldty newty f target rest         (* not found at all: skipped silently *)
+       end
+     else sub_loop rec w oldty newty f target rest)%res
   end.
 
 (* Element::check_version_compatibility(&self, file, target_version) -> (Vec<CompatibilityError>, u32).
    Recursion over the tree with the usual bound (number of allocated nodes + 1; a longer chain is cyclic). *)
-Fixpoint e_check (fuel : nat) (self f target : N) {struct fuel} : W (list compat_err * N) :=
+Fixpoint e_check (fuel : nat) (w : world) (self f target : N) {struct fuel} : res cres :=
   match fuel with
-  | O => wfuel
+  | O => Fuel
   | S fuel' =>
-    (do n <- get_node self;
+    (let* n := node_at w self in
      (* let elemtype_new = self.recalc_element_type(target_version); *)
-     do newty <- recalc_element_type n target;
-     (* attributes *)
-     do '(errs0, mask0) <- wlift (attr_loop self newty target (n_attrs n) [] U32MAX);
-     (* for sub_element in self.sub_elements() *)
-     (fix sub_loop (items : list citem) (errs : list compat_err) (mask : N) {struct items} : W (list compat_err * N) :=
-        match items with
-        | [] => wret (errs, mask)
-        | CData _ :: rest => sub_loop rest errs mask
-        | CElem c :: rest =>
-          do cn <- get_node c;
-          (* file_membership.is_empty() || file_membership.contains(file) *)
-          if is_empty (n_files cn) || set_mem f (n_files cn) then
-            (* a.or(b): BOTH lookups are evaluated (the argument of `or` is eager) *)
-            do r1 <- wlift (find_sub_element T newty (n_name cn) target);
-            do r2 <- wlift (find_sub_element T newty (n_name cn) U32MAX);
-            match (match r1 with Some x => Some x | None => r2 end) with
-            | Some (_, indices) =>
-              (* self.element_type().get_sub_element_version_mask(&indices).unwrap()  — the OLD type with the NEW type's indices *)
-              do vm <- wlift (let* o := get_sub_element_version_mask T (n_type n) indices in
-                              unwrap "check_version_compatibility: get_sub_element_version_mask(..).unwrap()" o)%res;
-              let mask1 := N.land mask vm in
-              if negb (compatible target vm)
-              then sub_loop rest (errs ++ [CEElem c vm]) mask1
-              else
-                do '(serrs, smask) <- e_check fuel' c f target;
-                sub_loop rest (errs ++ serrs) (N.land mask1 smask)
-            | None => sub_loop rest errs mask         (* not found at all: skipped silently *)
-            end
-          else sub_loop rest errs mask
-        end) (n_content n) errs0 mask0)%W
+     let* newty := recalc_element_type w n target in
+     let* '(ea, ma) := attr_loop self (n_type n) newty target (n_attrs n) in
+     let* cs := chardata_spec T newty in
+     let '(et, mt) := match cs with Some spec => text_loop self spec target (n_content n) | None => ([], U32MAX) end in
+     let* '(es, ms) := sub_loop (fun c => e_check fuel' w c f target) w (n_type n) newty f target (n_content n) in
+     Val (ea ++ et ++ es, N.land (N.land ma mt) ms))%res
   end.
 
 (* ArxmlFile::check_version_compatibility(target) -> (errors in the order the Rust pushes them, version mask).
    `self.model()` always succeeds here (the harness keeps every model alive: weak references upgrade). *)
-Definition f_check_version_compatibility (f target : N) : W (list compat_err * N) :=
-  (do x <- get_file f;
-   do m <- get_model (f_model x);
-   do w <- wget;
-   e_check (fuel_of w) (m_root m) f target)%W.
+Definition f_check (w : world) (f target : N) : res cres :=
+  (let* x := unwrap "dangling file id" (nth_opt (w_files w) (N.to_nat f)) in
+   let* m := unwrap "dangling model id" (nth_opt (w_models w) (N.to_nat (f_model x))) in
+   e_check (fuel_of w) w (m_root m) f target)%res.
+
+Definition f_check_version_compatibility (f target : N) : W cres :=
+  fun w => match f_check w f target with Val r => Val (OK r, w) | Pan s => Pan s | Fuel => Fuel end.
 
 (* ArxmlFile::set_version *)
 Definition f_set_version (f target : N) : W unit :=
